@@ -27,17 +27,18 @@ import (
 const maxCyclomatic = 12
 
 type fields struct {
-	n, m                   int
-	dist                   string
-	ec                     string
-	di, ra, gi             int
+	n, m                       int
+	dist                       string
+	ec                         string
+	di, ra, gi                 int
 	cc, cv, bl, ar, cy, ic, ip string
+	icb, ipb                   string // the two bounded counts for every bound -2..n+2
 }
 
 func (f fields) line(level int) string {
 	s := fmt.Sprintf("n=%d m=%d D=%s ec=%s di=%d ra=%d cc=%s cv=%s", f.n, f.m, f.dist, f.ec, f.di, f.ra, f.cc, f.cv)
 	if level >= 1 {
-		s += fmt.Sprintf(" gi=%d bl=%s ar=%s cy=%s ic=%s ip=%s", f.gi, f.bl, f.ar, f.cy, f.ic, f.ip)
+		s += fmt.Sprintf(" gi=%d bl=%s ar=%s cy=%s ic=%s ip=%s icb=%s ipb=%s", f.gi, f.bl, f.ar, f.cy, f.ic, f.ip, f.icb, f.ipb)
 	}
 	return s
 }
@@ -126,6 +127,12 @@ func reference(g *gx.G) refData {
 	f.ic = gx.JoinInts(r.icyc, ".")
 	f.ip = gx.JoinInts(r.ipaths, ".")
 	f.gi = refGirth(g)
+	var icb, ipb []string
+	for ml := -2; ml <= g.N+2; ml++ {
+		icb = append(icb, gx.JoinInts(bounded(r.icyc, ml, g.N), "."))
+		ipb = append(ipb, gx.JoinInts(bounded(r.ipaths, ml, g.N-1), "."))
+	}
+	f.icb, f.ipb = strings.Join(icb, "/"), strings.Join(ipb, "/")
 	// the references must agree with each other: girth = least length with a cycle = least
 	// length with an induced cycle; triangles are induced
 	least := func(c []int) int {
@@ -253,24 +260,18 @@ func observe(g6 string, base *gx.G, v gx.Variant, ref refData, viol *[]hx.Oracle
 			fail("NumberOfCycles", "the argument was modified")
 		}
 	}
+	var icb, ipb []string
 	for ml := -2; ml <= n+2; ml++ {
 		ic := graph.NumberOfInducedCycles(g, ml)
+		icb = append(icb, gx.JoinInts(ic, "."))
 		if ml == -1 {
 			f.ic = gx.JoinInts(ic, ".")
 		}
 		if want := bounded(ref.icyc, ml, n); gx.JoinInts(ic, ".") != gx.JoinInts(want, ".") {
 			fail("NumberOfInducedCycles", "maxLength=%d: got %v want %v", ml, ic, want)
 		}
-		// GENUINE DEFECTS of the unchanged repository (notes/C10.md), skipped exactly:
-		//  * NumberOfInducedPaths panics on the graph with one vertex (r[1] of a slice of length 1)
-		//  * NumberOfInducedPaths(g, 0) still counts the paths of length 1 when g has an edge
-		if n == 1 || (ml == 0 && ref.f.m > 0) {
-			if ml == -1 {
-				f.ip = ref.f.ip
-			}
-			continue
-		}
 		ip := graph.NumberOfInducedPaths(g, ml)
+		ipb = append(ipb, gx.JoinInts(ip, "."))
 		if ml == -1 {
 			f.ip = gx.JoinInts(ip, ".")
 		}
@@ -278,6 +279,7 @@ func observe(g6 string, base *gx.G, v gx.Variant, ref refData, viol *[]hx.Oracle
 			fail("NumberOfInducedPaths", "maxLength=%d: got %v want %v", ml, ip, want)
 		}
 	}
+	f.icb, f.ipb = strings.Join(icb, "/"), strings.Join(ipb, "/")
 	return f
 }
 
